@@ -38,8 +38,10 @@ CHECKS = {
    text=("Proof (Lean 4): a parse_error leaving a run blames exactly the rule the (deterministic, left-to-right) PEG formalism with labelled failures blames (C05_blame); every exception leaving any invocation was created "
          "inside it — a parse_error at a raise hook for the same rule with the same position, a foreign exception by an action call of that rule — i.e. it passed every combinator in between unchanged (C05_origin, by a "
          "trace invariant closed over all rule bodies and the match.hpp protocol); must<R> raises where R's attempt ended, not before where it began (C05_must_position); error positions are scan positions of a consumed prefix, "
-         "so byte/line/column are mutually consistent (C05_position_consistent); try_catch_*_return_false / _raise_nested convert exactly the exception classes they name and restore the cursor when required (C05_catch_*)."),
-   note=GENERAL_NOTE + " The what() string 'source:line:column: message' is produced by unmodelled C++ string code; the harness compares it on every observed parse_error. The must_if< Errors > control is covered by an oracle-only part (custom messages, raise_on_failure), not by the Lean model.",
+         "so byte/line/column are mutually consistent (C05_position_consistent); try_catch_*_return_false / _raise_nested convert exactly the exception classes they name and restore the cursor when required (C05_catch_*). "
+         "The must_if< Errors > control is modelled (the failure hook of a rule that has a message raises): such a rule never fails locally, and when its body fails or its bool action vetoes the run ends in the parse_error blaming that rule at the "
+         "position where the attempt stopped, raised inside its own invocation (C05_must_if; C05_origin and C05_position_consistent apply to it)."),
+   note=GENERAL_NOTE + " The what() string 'source:line:column: message' is produced by unmodelled C++ string code; the harness compares it on every observed parse_error. C05_blame (refinement to the formalism) assumes the run's control is not a must_if control (WFT.nomsgs); under must_if the blame is given by C05_must_if + C05_origin. Custom message texts are compared in the harness, not modelled.",
    technique="Lean 4 refinement (blame) + trace-invariant proof (origin, positions) + local characterisation of must/try_catch bodies; differential correspondence; trace oracles for identity, interval, conversion"),
  'C06': dict(engine='matcher-model', design_ref='DESIGN.md §6 C06',
    text=("Proof (Lean 4): a scan of the consumed prefix (what lazy inputs do) computes exactly the documented position (C06_scan_spec); from a tracked cursor, after any invocation — whatever consumed the prefix and however "
@@ -49,7 +51,7 @@ CHECKS = {
    note=GENERAL_NOTE + " Partial: eol::cr_crlf excluded (KNOWN-FINDING F11). Parse-tree node positions are the enter/exit cursors of C12's theorem.",
    technique="Lean 4 invariant proof (eager tracking = scan) over atoms and all rule bodies; differential correspondence under 5 eol policies x eager/lazy; independent Python recomputation of positions; eager/lazy pairing oracle"),
  'C08': dict(engine='matcher-model', design_ref='DESIGN.md §6 C08',
-   text=("Proof (Lean 4): the trace of every invocation of the model — any grammar table, input, mode, void / vetoing / throwing / match()-wrapping actions, controls with and without unwind() — is accepted by the "
+   text=("Proof (Lean 4): the trace of every invocation of the model — any grammar table, input, mode, void / vetoing / throwing / match()-wrapping actions, controls with and without unwind(), also mixed in one run through change_control / control<> (each invocation is judged with the unwind() availability of the control family that ran its start) — is accepted by the "
          "hook automaton: start is the first hook of the innermost open invocation of that rule, apply/apply0 come at most once after start and before the closing hook, there is exactly one closing hook, and it agrees "
          "with what the invocation returned (success <=> true, failure <=> false, unwind <=> exception; without unwind() the attempt ends open with the invocation) (C08_balanced, C08_parse); the exact events match() adds "
          "around the body (C08_protocol); per rule #start = #success + #failure + #unwind (C08_coverage). Proved once through a generic induction principle for trace predicates closed under concatenation."),
@@ -97,9 +99,11 @@ CHECKS = {
    text=("Proof (Lean 4): after any invocation — success, local failure, exception — the depth counter and the end of the input are what they were (C18_frame, C18_parse_frame, from the invariant closed "
          "over all rule bodies and the limit wrappers); limit_depth<N> admits the rule's match() exactly when the new depth is <= N and otherwise raises blaming limit_depth (C18_depth_exact/bound); "
          "limit_bytes<N> runs the rule in the window [cur, cur+min(avail,N)) wherever cur is, so it neither consumes nor inspects beyond (C18_bytes_bound with C03), and raises exactly when the rule "
-         "matched, stopped at the lowered end and the real input continues (C18_bytes_raise)."),
-   note=GENERAL_NOTE + " 'Inputs needing at most depth N parse as without the guard' is checked by a twin run (same grammar, guard removed via a second action family) on every explored input, not proved as a simulation theorem. Depth counts attempts (a rule attempted at depth N+1 raises even if it would fail).",
-   technique="Lean 4 invariant proof + exact characterisation of the two guards; differential correspondence; trace oracles incl. twin run"),
+         "matched, stopped at the lowered end and the real input continues (C18_bytes_raise). "
+         "Within the limit the guard is invisible (C18_twin): read limit_depth in three ways that differ only when the new depth would exceed N — raise (the model), stuck (no continuation), off (check removed); whenever the stuck run returns — i.e. no "
+         "limit was reached anywhere in the run, at any nesting — the guarded and the unguarded run return that very result (outcome, cursor, full trace, surviving actions), for every grammar, action attachment, input and mode; the stuck reading stops exactly where the guard fires (C18_stuck_exact)."),
+   note=GENERAL_NOTE + " C18_twin defines 'needing at most depth N' operationally (the run that cannot continue at a limit returns); the converse characterisation — a guarded run differs from it only if a limit_depth raise event occurs in its trace — is explored by the twin-run oracle (same grammar, guard removed via a second action family) on every explored input, not proved. Depth counts attempts (a rule attempted at depth N+1 raises even if it would fail).",
+   technique="Lean 4 invariant proof + exact characterisation of the two guards + twin-run theorem (guarded = unguarded whenever no limit is reached, by monotonicity in the sub-rule oracle); differential correspondence; trace oracles incl. twin run"),
  'C19': dict(engine='leaf-lines', design_ref='DESIGN.md §6 C19',
    text=("Proof (Lean 4): for all inputs, every offset k <= size, the five eol policies, eager and lazy tracking and any initial line: at() = k with initial byte 0; "
          "begin_of_line/end_of_line/line_at delimit exactly the specified line with 0 <= bol <= at <= eol <= size and no read outside the data, given initial byte 0 and "
@@ -111,8 +115,10 @@ CHECKS = {
    text=("Proof (Lean 4): for every grammar table, action attachment (void / vetoing / throwing apply and apply0, disable_action / enable_action / change_action / limit bases), input, mode and fuel: "
          "the actions that take effect are exactly the transactional reading of the trace — an invocation that fails or is left by an exception contributes nothing, whatever ran inside (C04_surviving, C04_fail_drops); "
          "an invocation of a rule with an enabled action whose body matched calls it exactly once, after every inner event, with begin = cursor at entry and end = cursor after the body (C04_once_with_span); with "
-         "actions disabled (at, not_at, disable, apply_mode::nothing, no enable inside) no action event occurs at all (C04_disabled); a bool action returning false makes the invocation a local failure with the cursor restored (C04_veto)."),
-   note=GENERAL_NOTE + " 'Transactional' is a statement about which action calls belong to successful ancestors; PEGTL does not undo side effects of actions that ran inside a rule that later fails, and the property does not ask for it. apply/apply0/if_apply *rules* (internal/apply.hpp) are not modelled.",
+         "actions disabled (at, not_at, disable, apply_mode::nothing, no enable inside) no action event occurs at all (C04_disabled); a bool action returning false makes the invocation a local failure with the cursor restored (C04_veto). "
+         "The rule-level attachment is modelled too: if_apply< R, A... > calls A1..An in order after all of R's events with R's span, only when R matched with actions enabled; the first false fails the rule, and the cursor is restored whenever the result is not success (C04_if_apply, C04_runActs_shape); "
+         "apply< A... > calls them with the empty span at the cursor; both are covered by the survivor, disabled-section and origin theorems."),
+   note=GENERAL_NOTE + " 'Transactional' is a statement about which action calls belong to successful ancestors; PEGTL does not undo side effects of actions that ran inside a rule that later fails, and the property does not ask for it. The apply0< A... > rule (internal/apply0.hpp) is not modelled (its calls carry no position to tie to).",
    technique="Lean 4 proof by trace-predicate closure over all rule bodies (survivors = fold of the trace; once-with-span from the match.hpp protocol); differential correspondence incl. action-family and apply-mode switching; trace oracle that recomputes family/mode per invocation"),
  'C07': dict(engine='leaf-buffer', design_ref='DESIGN.md §6 C07',
    text=("Proof (Lean 4): for the model of buffer_input (allocation of maximum + Chunk bytes, reader with arbitrary short-read schedule, require loop, discard memmove, iterator save/restore): the invariant "
@@ -139,11 +145,13 @@ CHECKS = {
          "exception passes; success is called at most once, only on the innermost live object, with the next outer object as outer state; every action call is given the innermost live object; nothing inside an invocation touches "
          "the objects alive at its entry (C13_deeper). Exact life cycles: state<> calls success iff the rule matched, in every apply mode, at the cursor after the match (C13_state_rule, counted over the whole trace in "
          "C13_state_rule_once); the action-based variants call it iff the rule matched and actions are enabled, and the rule's own action sees the new object (C13_change_state, C13_change_action_and_state, "
-         "C13_own_action_sees_new_state). change_action / enable_action / disable_action replace family / mode for exactly the attempt of their rule (C13_change_action, C13_disable_action, C13_enable_action, C13_seq_env)."),
-   note=GENERAL_NOTE + " Partial: 'affects exactly the sub-tree and nothing after it' for action/apply-mode switches is by construction in the model (the environment is a parameter passed downwards) and checked on the implementation by the "
-        "switch-scope trace oracle (family and apply mode recomputed per invocation from the chain of enclosing invocations), not stated as a trace-automaton theorem. change_control and the control<> rule are not in the Lean model (one control per run): "
-        "they are covered by an oracle-only part with a second, event-marking control family. The two spellings change_state / change_states are one constructor in the model (same behaviour); success() of the state types does not throw.",
-   technique="Lean 4 proof that every model trace is accepted by a state-scope stack automaton (environment-indexed trace induction) + exact life-cycle theorems; differential correspondence with state rules and all switching bases; three independent trace oracles; oracle-only change_control part"),
+         "C13_own_action_sees_new_state). change_action / enable_action / disable_action replace family / mode for exactly the attempt of their rule (C13_change_action, C13_disable_action, C13_enable_action, C13_seq_env). "
+         "Switch scoping as a trace theorem: every trace is accepted by the automaton that recomputes, from the rule table alone, apply mode, action family and control family of every invocation from its chain of enclosing invocations "
+         "(C13_switch_scoped, C13_parse_switch): a rule is entered with the prescribed mode through the prescribed control, its hooks are run by the control its own frame prescribes (the new one under change_control), an action is called only "
+         "for the innermost open rule and only if it has one in the prescribed family and mode; frames are popped on return, so no switch (change_action, change_action_and_state(s), change_control, enable/disable(_action), action<>, control<>) reaches anything after its rule."),
+   note=GENERAL_NOTE + " The model has two control families (the run's, with or without unwind(), and the harness's second, line-marking one, which defines unwind()); the control family is recorded at enter and start only — that every other hook line "
+        "of an invocation comes from the prescribed family is checked on the implementation's raw log by oracle_control_scope, not a theorem. The two spellings change_state / change_states are one constructor in the model (same behaviour); success() of the state types does not throw.",
+   technique="Lean 4 proof that every model trace is accepted by a state-scope stack automaton (environment-indexed trace induction) + exact life-cycle theorems; differential correspondence with state rules and all switching bases; Lean 4 proof that every trace is accepted by the switch automaton (mode, action family, control family recomputed from the enclosing invocations); four independent trace oracles"),
  'C12': dict(engine='matcher-model', design_ref='DESIGN.md §6 C12',
    text=("Proof (Lean 4): the node builder of contrib/parse_tree.hpp (make_control::state_handler: push on start, pop + transform + attach on success, pop on failure / unwind, splice for unselected rules, no bookkeeping at all for "
          "leaf-optimised rules) is modelled as a stack machine over the enter/exit events; for every trace of the matcher model — any grammar, actions (vetoing, throwing), selector, input — the trace is the event list of one "
